@@ -57,10 +57,21 @@ func mkNtAlign(rows [][]int) align.Alignment {
 	return a
 }
 
+// model objects are kept and re-initialised by later calls (as the CLI does for bootstrap replicates and multi-alignment
+// inputs): state left over from an earlier alignment must not leak into a later matrix
+var modelPool = map[string]dna.DistModel{}
+var reuseModels = false
+
 func mkModel(o distOpts) (dna.DistModel, error) {
-	m, err := dna.Model(o.Model, o.RmGaps)
-	if err != nil {
-		return nil, err
+	key := fmt.Sprintf("%s/%v", o.Model, o.RmGaps)
+	m, ok := modelPool[key]
+	var err error
+	if !ok || !reuseModels {
+		m, err = dna.Model(o.Model, o.RmGaps)
+		if err != nil {
+			return nil, err
+		}
+		modelPool[key] = m
 	}
 	switch mm := m.(type) {
 	case *dna.PDistModel:
@@ -267,6 +278,7 @@ func distFamily(env *Env) error {
 		rows := randDistRows(rng, env.Tier)
 		L := len(rows[0])
 		o := randDistOpts(rng, L)
+		reuseModels = rng.Intn(2) == 0
 		r := noRange
 		if rng.Intn(6) == 0 {
 			n := len(rows)
@@ -377,3 +389,256 @@ func distFamily(env *Env) error {
 }
 
 func init() { families["dist"] = distFamily }
+
+
+// ---- fault injection and free-running concurrency workload (C08) -----------------------------------------
+
+// faultyModel wraps a real model; its k-th Distance (resp. Sequence) call fails.
+type faultyModel struct {
+	inner    dna.DistModel
+	failDist int64 // 1-based index of the failing Distance call, 0 = never
+	failSeq  int64
+	nd, ns   int64
+	mu       chan struct{}
+}
+
+var errInjected = fmt.Errorf("injected failure")
+
+func (f *faultyModel) InitModel(al align.Alignment, w []float64, g bool, a float64) error {
+	return f.inner.InitModel(al, w, g, a)
+}
+func (f *faultyModel) Distance(s1, s2 []uint8, w []float64) (float64, error) {
+	f.mu <- struct{}{}
+	f.nd++
+	k := f.nd
+	<-f.mu
+	if k == f.failDist {
+		return 0, errInjected
+	}
+	return f.inner.Distance(s1, s2, w)
+}
+func (f *faultyModel) Sequence(i int) ([]uint8, error) {
+	f.mu <- struct{}{}
+	f.ns++
+	k := f.ns
+	<-f.mu
+	if k == f.failSeq {
+		return nil, errInjected
+	}
+	return f.inner.Sequence(i)
+}
+
+type concCfg struct {
+	Np  int `json:"np"`
+	Nw  int `json:"nw"`
+	Cap int `json:"cap"`
+	Fd  int `json:"fd"`
+	Fs  int `json:"fs"`
+}
+type concRun struct {
+	T    string  `json:"t"`
+	ID   string  `json:"id"`
+	Cfg  concCfg `json:"cfg"`
+	Ret  string  `json:"ret"`
+	Logs []*gLog `json:"logs"`
+	Rows [][]int `json:"rows"`
+	FD   int     `json:"faildist"`
+	FS   int     `json:"failseq"`
+}
+
+// pairIndex: position (1-based) of the pair (i,j), i<j, in the order the full half matrix is produced
+func pairIndex(n, i, j int) int {
+	k := 0
+	for a := 0; a < n; a++ {
+		for b := a + 1; b < n; b++ {
+			k++
+			if a == i && b == j {
+				return k
+			}
+		}
+	}
+	return k + 1
+}
+
+// recordRun executes one DistMatrix call with the hooks recording, and returns the run in the vocabulary of
+// DistMatrixConc (pairs numbered in production order, workers numbered by first appearance).
+func recordRun(rows [][]int, o distOpts, cpus, failDist, failSeq int) *concRun {
+	rec := newRecorder()
+	stop := rec.install()
+	ev := faultCall(rows, o, cpus, failDist, failSeq)
+	logs := stop()
+	if ev.Kind == "hang" || ev.Kind == "panic" {
+		return &concRun{T: "conc", Ret: ev.Kind, Logs: []*gLog{}, Rows: rows, FD: failDist, FS: failSeq}
+	}
+	n := len(rows)
+	run := &concRun{T: "conc", Cfg: concCfg{Np: n * (n - 1) / 2, Nw: cpus, Cap: 100, Fd: failDist}, Ret: "ok", Rows: rows, FD: failDist, FS: failSeq}
+	if ev.Kind == "err" {
+		run.Ret = "err"
+	}
+	nw := 0
+	for _, l := range logs {
+		if len(l.Ev) == 0 {
+			continue
+		}
+		switch l.Ev[0].Pt[:5] {
+		case "dm.p.":
+			l.Role = "producer"
+		case "dm.w.":
+			l.Role = "worker"
+			nw++
+			l.W = nw
+		default:
+			l.Role = "main"
+		}
+		for k := range l.Ev {
+			e := &l.Ev[k]
+			switch e.Pt {
+			case "dm.p.send", "dm.w.recv", "dm.w.dist", "dm.w.err", "dm.w.lock":
+				e.A, e.B = pairIndex(n, e.A, e.B), 0
+			case "dm.p.err":
+				// the row request that failed precedes the sending of this pair
+				if e.B < 0 {
+					e.A = pairIndex(n, e.A, e.A+1)
+				} else {
+					e.A = pairIndex(n, e.A, e.B)
+				}
+				e.B = 0
+				run.Cfg.Fs = e.A
+			}
+		}
+		run.Logs = append(run.Logs, l)
+	}
+	return run
+}
+
+type faultEvent struct {
+	T        string   `json:"t"`
+	ID       string   `json:"id"`
+	Rows     [][]int  `json:"rows"`
+	O        distOpts `json:"o"`
+	Cpus     int      `json:"cpus"`
+	FailDist int      `json:"faildist"`
+	FailSeq  int      `json:"failseq"`
+	NPairs   int      `json:"npairs"`
+	NSeqCall int      `json:"nseqcalls"`
+	Kind     string   `json:"kind"` // ok | err | hang | panic
+	Injected bool     `json:"injected"`
+	Msg      string   `json:"msg"`
+	Procs    int      `json:"procs"`
+}
+
+func faultCall(rows [][]int, o distOpts, cpus, failDist, failSeq int) (ev faultEvent) {
+	n := len(rows)
+	ev = faultEvent{T: "fault", Rows: rows, O: o, Cpus: cpus, FailDist: failDist, FailSeq: failSeq, NPairs: n * (n - 1) / 2, NSeqCall: n + n*(n-1)/2}
+	type res struct {
+		err error
+		pan interface{}
+	}
+	done := make(chan res, 1)
+	go func() {
+		defer func() {
+			if p := recover(); p != nil {
+				done <- res{nil, p}
+			}
+		}()
+		inner, err := mkModel(o)
+		if err != nil {
+			done <- res{err, nil}
+			return
+		}
+		fm := &faultyModel{inner: inner, failDist: int64(failDist), failSeq: int64(failSeq), mu: make(chan struct{}, 1)}
+		_, err = dna.DistMatrix(mkNtAlign(rows), nil, fm, -1, -1, -1, -1, o.Gamma, 1, cpus)
+		done <- res{err, nil}
+	}()
+	select {
+	case x := <-done:
+		switch {
+		case x.pan != nil:
+			ev.Kind, ev.Msg = "panic", fmt.Sprint(x.pan)
+		case x.err != nil:
+			ev.Kind, ev.Msg, ev.Injected = "err", x.err.Error(), x.err == errInjected
+		default:
+			ev.Kind = "ok"
+		}
+	case <-time.After(10 * time.Second):
+		ev.Kind, ev.Msg = "hang", "DistMatrix did not return within 10 s"
+	}
+	return
+}
+
+// distConcFamily: failing models at every position x thread counts, and plain multi-threaded runs (for the race detector).
+func distConcFamily(env *Env) error {
+	rng := rand.New(rand.NewSource(env.Seed))
+	for i := 0; i < env.N; i++ {
+		rows := randDistRows(rng, "quick")
+		for len(rows) < 3 {
+			rows = append(rows, rows[0])
+		}
+		for r := range rows { // only encodable residues here
+			for c := range rows[r] {
+				if rows[r][c] == '?' || rows[r][c] == 'U' {
+					rows[r][c] = 'A'
+				}
+			}
+		}
+		o := randDistOpts(rng, len(rows[0]))
+		o.Wts = []int{}
+		n := len(rows)
+		np := n * (n - 1) / 2
+		cpus := []int{1, 2, 3, 4, 8, 16, 32}[rng.Intn(7)]
+		var ev faultEvent
+		switch rng.Intn(3) {
+		case 0:
+			ev = faultCall(rows, o, cpus, 1+rng.Intn(np), 0)
+		case 1:
+			ev = faultCall(rows, o, cpus, 0, 1+rng.Intn(n+np))
+		default:
+			ev = faultCall(rows, o, cpus, 0, 0)
+		}
+		ev.ID = fmt.Sprintf("f%d_%d", env.Seed, i)
+		env.Emit(ev)
+		// overlapping and disjoint ranges, many threads: material for the race detector and the return check
+		r := []int{0, n - 1, 0, n - 1}
+		if rng.Intn(2) == 0 {
+			r = []int{0, 0, 1, n - 1}
+		}
+		d := distCall(rows, o, r, cpus)
+		d.ID = ev.ID + ":range"
+		env.Emit(d)
+	}
+	return nil
+}
+
+// distTraceFamily: small runs recorded through the hooks, one "conc" record per DistMatrix call.
+func distTraceFamily(env *Env) error {
+	rng := rand.New(rand.NewSource(env.Seed))
+	for i := 0; i < env.N; i++ {
+		n := 2 + rng.Intn(3)
+		rows := make([][]int, n)
+		for r := range rows {
+			rows[r] = make([]int, 6)
+			for c := range rows[r] {
+				rows[r][c] = int("ACGT"[rng.Intn(4)])
+			}
+		}
+		np := n * (n - 1) / 2
+		o := distOpts{Model: []string{"jc", "k2p", "pdist"}[rng.Intn(3)], Alpha: "1", Wts: []int{}}
+		cpus := 1 + rng.Intn(3)
+		fd, fs := 0, 0
+		switch rng.Intn(3) {
+		case 0:
+			fd = 1 + rng.Intn(np)
+		case 1:
+			fs = 1 + rng.Intn(n+np)
+		}
+		run := recordRun(rows, o, cpus, fd, fs)
+		run.ID = fmt.Sprintf("c%d_%d", env.Seed, i)
+		env.Emit(run)
+	}
+	return nil
+}
+
+func init() {
+	families["distconc"] = distConcFamily
+	families["disttrace"] = distTraceFamily
+}
